@@ -88,6 +88,23 @@ def run(ctx):
                 try: e['obs'] = B((N.Nilsimsa() if target is None else N.Nilsimsa(target)).update(data[:cut]).update(data[cut:]).digest())
                 except Exception as ex: e['raised'] = type(ex).__name__
                 ev.append(e); ctx.mark(('nilcut', tv, n, cut))
+        # more than one cut: short (0..3 byte) middle pieces, byte-at-a-time feeding, random multi-cuts
+        def multi(pieces):
+            e = dict(op='nil_multi', target=tv, pieces=[B(x) for x in pieces], raised='', obs=[])
+            try:
+                o = N.Nilsimsa() if target is None else N.Nilsimsa(target)
+                for x in pieces: o.update(x)
+                e['obs'] = B(o.digest())
+            except Exception as ex: e['raised'] = type(ex).__name__
+            ev.append(e)
+        data = text(23)
+        for a in ((3, 7, 12) if not big else range(0, 20, 2)):
+            for mid in (0, 1, 2, 3):
+                multi([data[:a], data[a:a + mid], data[a + mid:]]); ctx.mark(('nilmulti', tv, a, mid))
+        multi([data[j:j + 1] for j in range(len(data))])
+        for _ in range(6 if big else 2):
+            d2 = text(rnd.randrange(10, 60)); cuts = sorted(rnd.randrange(len(d2) + 1) for _ in range(rnd.randrange(2, 6)))
+            multi([d2[x:y] for x, y in zip([0] + cuts, cuts + [len(d2)])])
     for tv, lst in nds.items():
         for i in range(min(len(lst), 6)):
             for j in (i, (i + 1) % len(lst), (i + 3) % len(lst)):
